@@ -255,6 +255,8 @@ func init() {
 				switch {
 				case o.Class == "PANIC":
 					e.Violate("eval-panic@"+siteOf(o.Msg), fmt.Sprintf("Render panicked on %q: %s", t[0], o.Msg), rp)
+				case o.Class == "OK" && strings.Contains(t[0], "in mm {") && matchPermutation(o.Out, strings.SplitAfter(t[1], ";")[:2]):
+					// a loop over a map visits the entries in any order
 				case o.Class != "OK" || o.Out != t[1]:
 					e.Violate(c11key(t[0], o, o.Out), fmt.Sprintf("%s: Go navigation yields %q, the template rendered %q (%s %s)", t[0], t[1], o.Out, o.Class, firstLine(o.Msg)), rp)
 				}
@@ -351,6 +353,61 @@ func init() {
 				}
 			}
 		}
+		// a method promoted through an embedded pointer that is nil, a value method reached through a nil
+		// pointer: the navigation cannot be completed - an error or empty output, never a panic
+		{
+			extra := map[string]interface{}{"emb": c11outer{}, "pemb": &c11outer{}, "okemb": c11outer{&c11inner{7}}, "embs": []c11outer{{}, {&c11inner{8}}}}
+			for _, t := range [][2]string{{"[<%= emb.Val() %>]", ""}, {"[<%= pemb.Val() %>]", ""}, {"[<%= okemb.Val() %>]", "[7]"}, {"[<%= embs[1].Val() %>]", "[8]"}, {"[<%= embs[0].Val() %>]", ""},
+				{"<%= for (x) in embs { %>[<%= x.Val() %>]<% } %>", ""}, {"<% let q = emb.Val() %>[<%= q %>]", ""}, {"[<%= if (emb.Val()) { %>y<% } %>]", ""}, {"[<%= okemb.Val() + emb.Val() %>]", ""}} {
+				o := runRenderExtra(RCase{Tmpl: t[0]}, extra)
+				e.rep.Evaluations++
+				e.Count("nil-embedded-receiver")
+				e.Distinct(t[0])
+				rp := map[string]interface{}{"tmpl": t[0], "observed": o}
+				switch {
+				case o.Class == "PANIC":
+					e.Violate("eval-panic@"+siteOf(o.Msg), fmt.Sprintf("Render panicked on %q: %s", t[0], o.Msg), rp)
+				case t[1] != "" && (o.Class != "OK" || o.Out != t[1]):
+					e.Violate("c11-navigation-fails", fmt.Sprintf("%s: Go yields %q, the template gave %q (%s %s)", t[0], t[1], o.Out, o.Class, firstLine(o.Msg)), rp)
+				case t[1] == "" && o.Class == "OK" && strings.ContainsAny(o.Out, "0123456789"):
+					e.Violate("c11-other-element", fmt.Sprintf("%s: the navigation cannot be completed in Go, the template rendered %q", t[0], o.Out), rp)
+				}
+			}
+		}
+		// methods with a POINTER receiver called on values that are not addressable (slice elements, map
+		// values, struct fields) and handing back a pointer into their receiver: every result belongs to
+		// the value it was called on, also when several results of one type are alive at once
+		{
+			mk := func(n string) c11item { return c11item{Name: n, Leaf: c11leaf{n + ".Leaf"}} }
+			extra := map[string]interface{}{"items": []c11item{mk("items[0]"), mk("items[1]"), mk("items[2]")}, "bk": map[string]c11item{"x": mk("bk[x]"), "y": mk("bk[y]")},
+				"root": struct{ A, B c11item }{mk("root.A"), mk("root.B")}, "pair": func(a, b *c11leaf) string { return a.Name + "&" + b.Name },
+				"ifs": []interface{}{mk("ifs[0]"), mk("ifs[1]")}}
+			for _, t := range [][2]string{
+				{`<%= items[0].Ref().Name %>|<%= items[1].Ref().Name %>|<%= root.A.Label() %>|<%= root.B.Ref().Name %>`, "items[0].Leaf|items[1].Leaf|root.A|root.B.Leaf"},
+				{`<% let p = items[0].Ref() %><% let q = items[1].Ref() %><%= p.Name %>|<%= q.Name %>|<%= p.Name %>`, "items[0].Leaf|items[1].Leaf|items[0].Leaf"},
+				{`<% let rs = [items[2].Ref(), items[0].Ref(), items[1].Ref()] %><%= rs[0].Name %>|<%= rs[1].Name %>|<%= rs[2].Name %>`, "items[2].Leaf|items[0].Leaf|items[1].Leaf"},
+				{`<%= pair(items[0].Ref(), items[1].Ref()) %>|<%= pair(root.A.Ref(), root.B.Ref()) %>|<%= pair(bk["x"].Ref(), bk["y"].Ref()) %>`, "items[0].Leaf&amp;items[1].Leaf|root.A.Leaf&amp;root.B.Leaf|bk[x].Leaf&amp;bk[y].Leaf"},
+				{`<% let p = bk["x"].Ref() %><% let q = bk["y"].Ref() %><%= p.Name %>|<%= q.Name %>`, "bk[x].Leaf|bk[y].Leaf"},
+				{`<% let p = root.A.Ref() %><% let t = root.B.Tag("s") %><%= p.Name %>|<%= t %>`, "root.A.Leaf|root.B+s"},
+				{`<% let h = {} %><%= for (i, it) in items { %><% h["k" + i] = it.Ref() %><% } %><%= h["k0"].Name %>|<%= h["k1"].Name %>|<%= h["k2"].Name %>`, "items[0].Leaf|items[1].Leaf|items[2].Leaf"},
+				{`<% let first = ifs[0].Ref() %><%= for (it) in ifs { %><%= it.Label() %>,<% } %><%= first.Name %>`, "ifs[0],ifs[1],ifs[0].Leaf"},
+				{`<% let f = fn(a) { return a.Ref() } %><% let p = f(items[0]) %><% let q = f(items[1]) %><%= p.Name %>|<%= q.Name %>`, "items[0].Leaf|items[1].Leaf"},
+			} {
+				o := runRenderExtra(RCase{Tmpl: t[0]}, extra)
+				e.rep.Evaluations++
+				e.Count("pointer-receiver-results")
+				e.Distinct(t[0])
+				rp := map[string]interface{}{"tmpl": t[0], "observed": o}
+				switch {
+				case o.Class == "PANIC":
+					e.Violate("eval-panic@"+siteOf(o.Msg), fmt.Sprintf("Render panicked on %q: %s", t[0], o.Msg), rp)
+				case o.Class == "OK" && o.Out != t[1]:
+					e.Violate("c11-other-element", fmt.Sprintf("%s: Go yields %q, the template rendered %q", t[0], t[1], o.Out), rp)
+				case o.Class == "ERR":
+					e.Violate("c11-navigation-fails", fmt.Sprintf("%s: Go yields %q, the template failed: %s", t[0], t[1], firstLine(o.Msg)), rp)
+				}
+			}
+		}
 	})
 }
 
@@ -365,6 +422,23 @@ type c11leaf struct{ Name string }
 func (t c11tree) Val() string           { return "Val:" + t.Name }
 func (t *c11tree) Pick(s string) string { return t.Name + "/" + s }
 func (l c11leaf) Val() string           { return "Leaf:" + l.Name }
+
+// a value method promoted through an embedded pointer
+type c11inner struct{ v int }
+
+func (i c11inner) Val() int { return i.v }
+
+type c11outer struct{ *c11inner }
+
+// pointer-receiver methods, one of which hands back a pointer into the receiver
+type c11item struct {
+	Name string
+	Leaf c11leaf
+}
+
+func (s *c11item) Ref() *c11leaf       { return &s.Leaf }
+func (s *c11item) Label() string       { return s.Name }
+func (s *c11item) Tag(x string) string { return s.Name + "+" + x }
 
 func c11mktree(path string, depth int) *c11tree {
 	t := &c11tree{Name: path, V: c11leaf{path + ".V"}}
